@@ -166,7 +166,7 @@ func VerifHarness_C24_TwoMoves_Thorough() {
 }
 
 // VerifHarness_C24_HighestIterationWins: for an arbitrary listing of marker
-// files of one marker with symbolic iteration numbers (6- or 7-digit names, low 3/4 digits symbolic) and
+// files of one marker with symbolic iteration numbers (1-, 6- or 7-digit fields; leading digit and low 2/3 digits symbolic) and
 // values, the scan selects the file with the numerically highest iteration and
 // reports every other file as obsolete - an obsolete file never wins.
 func VerifHarness_C24_HighestIterationWins() {
@@ -178,21 +178,22 @@ func VerifHarness_C24_HighestIterationWins() {
 	iters := make([]uint64, n)
 	vals := make([]byte, n)
 	for i := 0; i < n; i++ {
-		// the K low digits are symbolic; the leading ones are "000" or (7-digit names, as produced
-		// once the iteration passes 999999) "1000"
-		K := 3
+		// the leading digit and the K low digits are symbolic, the ones in between are zeros; the
+		// field is 6 digits wide (%06d), 7 (once the iteration passes 999999) or 1 (unpadded
+		// names parse too)
+		K := 2
 		if sym.Thorough() {
-			K = 4
+			K = 3
 		}
-		w := 6 + sym.Choose("extra-digit", 2)
+		w := []int{6, 7, 1}[sym.Choose("width", 3)]
 		digits := make([]byte, w)
 		for j := range digits {
 			digits[j] = '0'
 		}
-		if w == 7 {
-			digits[0] = '1'
+		digits[0] = sym.U8("lead-digit")
+		if w > 1 {
+			copy(digits[w-K:], sym.BytesN("digits", K))
 		}
-		copy(digits[w-K:], sym.BytesN("digits", K))
 		var v uint64
 		for _, c := range digits {
 			sym.Assume(sym.And(c >= '0', c <= '9'))
